@@ -123,10 +123,10 @@ REGISTRY = {
     "C09": {
         "title": "I/O failures are reported, contained and never destroy durable data",
         "teq": [
-            {"engine": "fault", "quick": {"n": 1, "faults": 4}, "thorough": {"tier": "thorough"}, "oracle": True, "mismatch_is_failure": False, "timeout": 3400,
+            {"engine": "fault", "quick": {"n": 1, "faults": 3}, "thorough": {"tier": "thorough"}, "oracle": True, "mismatch_is_failure": False, "timeout": 3400,
              "nontrivial": lambda case, res: "fault=" in case and res.startswith("ok") and "keys=-" not in res,
              "distinct_key": lambda case, res: case.split("fault=")[-1] + res,
-             "what": "forced-pwrite path with hook H2: for each workload a fault-free run counts the device calls, then runs with a single failing call (any write or fsync, failing before or after the bytes reached the device), pairs of failures, persistent failure from a point, and persistent failure that heals; (a) the Coq monitor must accept the faulted device history (scrub markers only inside journaled extents, re-issued journal writes, ordering); (b) crash images along the faulted history and the device as it stands are reopened by the real code and by Model.Recovery (must agree); (c) oracle: flush()==Ok acknowledges (window check on every image; a close during which a call failed acknowledges nothing), reads issued during the failure return the latest accepted values, the workload neither hangs nor dies, and after healing the last flush succeeds unless the device was poisoned"}],
+             "what": "forced-pwrite path with hook H2: for each workload a fault-free run counts the device calls, then runs with EVERY single failing call of that workload (each write and each fsync, failing before and after the bytes reached the device; the 16 shards split the list), random pairs of failures, persistent failure from a point, and persistent failure that heals; (a) the Coq monitor must accept the faulted device history (scrub markers only inside journaled extents, re-issued journal writes, ordering); (b) crash images along the faulted history and the device as it stands are reopened by the real code and by Model.Recovery (must agree); (c) oracle: flush()==Ok acknowledges (window check on every image; a close during which a call failed acknowledges nothing), reads issued during the failure return the latest accepted values, the workload neither hangs nor dies, and after healing the last flush succeeds unless the device was poisoned"}],
         "nontrivial_rule": "a case is one crash image of one faulted run (or one faulted history for the monitor); non-trivial = at least one key recovered; distinct by (fault kind, plan, contents)",
         "assumptions": ["A4 fail-stop faults: a failed write left the old bytes or wrote the new ones; a failed fsync persisted any subset (modelled as: the writes stay un-synced)",
                         "io_uring-path faults are not injected (only observed)"],
